@@ -169,7 +169,14 @@ func reifyInto(opts *options, to reflect.Value, from *Config) Error {
 	to = chaseValuePointers(to)
 
 	if to, ok := tryTConfig(to); ok {
-		return mergeConfig(opts, to.Addr().Interface().(*Config), from)
+		target := to.Addr().Interface().(*Config)
+		if target == from {
+			// the target is the configuration that is being read (it was put
+			// there by the caller, or by an earlier Unpack): it holds every
+			// setting already, and reading must not rewrite its source
+			return nil
+		}
+		return mergeConfig(opts, target, from)
 	}
 
 	tTo := chaseTypePointers(to.Type())
